@@ -119,7 +119,7 @@ namespace sqf::parser::preprocessor
                         while ((c = _next()) != '\0' && c != '\n');
                     }
                 }
-                if (c == '\\')
+                if (c == '\\' && !is_in_string)
                 {
                     auto pc1 = peek(0);
                     auto pc2 = peek(1);
